@@ -757,3 +757,60 @@ def coordinate_truthiness(P, R, rule, modules, why):
                     f'`{norm(bad[0])[:60] if bad else ""}` in {f.qualname} tests a box coordinate for truth: the coordinate 0 (a box side on an axis) counts as "not given" and is replaced: {why}',
                     construct=f'{f.qualname}: box coordinates tested for truth')
     return n
+
+
+def masked_offsets(P, R, rule):
+    """Invariant the kernels rely on: a MISSING element spans no coordinates (its offsets range is empty) - that is how arrow builds arrays from python data and
+    how slice / take / concat keep them.  `ListArray.from_arrays(offsets, values, mask=m)` attaches a validity mask to offsets as they are: it keeps the
+    invariant only when the mask marks exactly the elements that were missing in the array the offsets come from - the receiver's own offsets with its own
+    `isna()`.  A mask that adds elements (fill slots of a take, filtered rows) marks elements as missing whose offsets still span coordinates: they are null
+    for isna(), but every kernel that walks the offsets still sees their vertices (intersects_bounds answers True, length/area are computed)."""
+    n = 0
+    for m in P.mods.values():
+        if not m.name.startswith('spatialpandas.geometry'):
+            continue
+        for f in m.funcs.values():
+            if isinstance(f.node, ast.Lambda):
+                continue
+            for c in astq.own_calls(f):
+                if not (isinstance(c.func, ast.Attribute) and c.func.attr == 'from_arrays' and c.args):
+                    continue
+                offs = c.args[0]
+                mk = astq.arg_of(c, kw='mask')
+                inner_mask = None
+                for x in ast.walk(offs):
+                    if isinstance(x, ast.Call) and astq.arg_of(x, kw='mask') is not None:
+                        inner_mask = astq.arg_of(x, kw='mask')
+                mk = mk if mk is not None else inner_mask
+                if mk is None:
+                    continue
+                n += 1
+                me = astq.expand(f, mk)
+                srcs = astq.sources(f, mk)
+                own_isna = any(isinstance(x, ast.Call) and isinstance(x.func, ast.Attribute) and x.func.attr in ('isna', 'isnull', 'is_null') and norm(x.func.value) in ('self', 'self.data')
+                               for x in ast.walk(me))
+                widened = any(isinstance(x, ast.BinOp) and isinstance(x.op, (ast.BitOr, ast.BitAnd, ast.BitXor)) for x in ast.walk(me)) or \
+                    any(isinstance(x, ast.Compare) for x in ast.walk(me))
+                # provenance through local names too (missing = fill_mask | taken.isna())
+                for nm in srcs:
+                    for d_ in astq.assignments(f, nm):
+                        if d_[0] == 'expr' and isinstance(d_[1], ast.AST):
+                            if any(isinstance(x, ast.BinOp) and isinstance(x.op, (ast.BitOr, ast.BitAnd, ast.BitXor)) for x in ast.walk(d_[1])) or any(isinstance(x, ast.Compare) for x in ast.walk(d_[1])):
+                                widened = True
+                            if any(isinstance(x, ast.Call) and isinstance(x.func, ast.Attribute) and x.func.attr in ('isna', 'isnull', 'is_null') and norm(x.func.value) in ('self', 'self.data') for x in ast.walk(d_[1])):
+                                own_isna = True
+                oe = astq.expand(f, offs)
+                own_offs = any(isinstance(x, ast.Attribute) and x.attr in ('buffer_offsets', 'buffer_outer_offsets', 'buffer_inner_offsets') and norm(x.value) == 'self' for x in ast.walk(oe)) or \
+                    any(nm2 in astq.sources(f, offs) for nm2 in ()) or any(isinstance(d_[1], ast.AST) and 'self.buffer_offsets' in norm(d_[1]) for nm in astq.sources(f, offs) for d_ in astq.assignments(f, nm) if d_[0] == 'expr')
+                if not own_offs:
+                    so = astq.sources(f, offs)
+                    for st in walk_own(f.node):
+                        if isinstance(st, ast.Assign) and ({n_.id for t_ in st.targets for n_ in ast.walk(t_) if isinstance(n_, ast.Name)} & so) \
+                                and any(isinstance(x, ast.Attribute) and x.attr in ('buffer_offsets', 'buffer_outer_offsets', 'buffer_inner_offsets') and norm(x.value) == 'self' for x in ast.walk(st.value)):
+                            own_offs = True
+                ok = own_isna and own_offs and not widened
+                R.check(ok, rule, f, c, 'a validity mask is attached only to the array\'s own offsets, marking its own missing elements',
+                        f'`{norm(c)[:80]}` attaches the mask `{norm(mk)[:40]}` ' + ('(more elements than were missing) ' if widened else '') + 'to offsets in which the newly masked elements still span coordinates: '
+                        'they are missing for isna() but every kernel that walks the offsets sees their vertices - a missing row intersects boxes, has a length and an area',
+                        construct=f'{f.qualname}: mask on {norm(offs)[:40]}')
+    return n
